@@ -84,6 +84,7 @@ Bad(e) ==
          IN Failed({<<"RULES:constructor_result_as_modelled", Conforms(res, Model(e.f, a, e.ints))>>,
                     <<"RULES:normal_form", WfN(res)>>,
                     <<"RULES:nullable_flag_as_modelled", e.nullable = NulN(res)>>,
+                    <<"RULES:derivative_classes_as_modelled", {<<e.cls[j][1], e.cls[j][2]>> : j \in 1..Len(e.cls)} = ClassesN(res)>>,
                     <<"C01:constructor_step_language", e.sem => Equiv(Ke(res), Meaning(e.f, a, e.ints))>>,
                     <<"C01:nullable", e.sem => e.nullable = Nullable(Ke(res))>>})
     [] e.op = "dstep" ->
